@@ -33,6 +33,9 @@ type Job struct {
 	Limit     int    `json:"limit,omitempty"`     // hashes mode: first N plan entries
 	BudgetS   int    `json:"budget_s,omitempty"`  // wall-clock budget for this worker (0 = none)
 	MaxMinim  int    `json:"max_minim,omitempty"` // max violations minimised per worker
+	Skip      []int  `json:"skip,omitempty"`      // plan indices not to execute (they killed an earlier worker process)
+	From      int    `json:"from,omitempty"`      // resume: execute plan indices >= From only
+	Carry     string `json:"carry,omitempty"`     // resume: summary of the part already executed
 }
 
 type ViolationRec struct {
@@ -105,6 +108,7 @@ func TestWorker(t *testing.T) {
 		t.Fatal(err)
 	}
 	startWatchdog()
+	currentFile = job.Out + ".current"
 	sum := &Summary{Worker: job.Worker, Faults: map[string]int{}, Probes: map[string]int{}, Workloads: map[string]int{}, Strategies: map[string]int{}, MapSites: map[string]int{}}
 	start := time.Now()
 	switch job.Mode {
@@ -118,6 +122,7 @@ func TestWorker(t *testing.T) {
 		t.Fatalf("unknown mode %q", job.Mode)
 	}
 	sum.WallS = time.Since(start).Seconds()
+	os.Remove(currentFile)
 	b, _ := json.Marshal(sum)
 	if err := os.WriteFile(job.Out, b, 0o644); err != nil {
 		t.Fatal(err)
@@ -150,9 +155,18 @@ func startWatchdog() {
 	}()
 }
 
+// currentFile: the spec about to be executed is written here first, so that a
+// process-fatal error (stack exhaustion, concurrent map write) is attributed
+// to exactly one run by the supervisor.
+var currentFile string
+var currentIdx = -1
+
 func exec1(t *testing.T, spec RunSpec) *Verdict {
 	b, _ := json.Marshal(spec)
 	currentRun.Store(string(b))
+	if currentFile != "" {
+		os.WriteFile(currentFile, []byte(fmt.Sprintf("{\"idx\":%d,\"spec\":%s}", currentIdx, b)), 0o644)
+	}
 	v := Execute(t, spec)
 	currentRun.Store("")
 	return v
@@ -204,10 +218,15 @@ func workerRun(t *testing.T, job Job, sum *Summary) {
 		maxMin = 6
 	}
 	mine := 0
+	skip := map[int]bool{}
+	for _, i := range job.Skip {
+		skip[i] = true
+	}
 	for idx, spec := range plan {
-		if idx%job.Workers != job.Worker {
+		if idx%job.Workers != job.Worker || idx < job.From || skip[idx] {
 			continue
 		}
+		currentIdx = idx
 		if !deadline.IsZero() && time.Now().After(deadline) {
 			sum.Skipped++
 			continue
